@@ -5,12 +5,14 @@ CONSTANTS
   Initial <- InitialABC
   Kinds = {"add", "remove", "promote", "demote"}
   AccessArgs <- ArgsPlain
-  Replica = {}
+  Replica = {r1, r2}
   MaxOps = 3
   MaxRejected = 0
   Defect_TieBreakByPartialCmp = FALSE
   Defect_NoopModifyUnchecked = FALSE
   Defect_RecreateAccepted = FALSE
 INVARIANTS
-  ExportHistory
-CHECK_DEADLOCK FALSE
+  C31_Convergence
+  C31_IncrementalEqualsRebuild
+  C31_VerdictsAgree
+SYMMETRY ReplicaSymmetry
